@@ -9,6 +9,12 @@ MODULES = ["IoraModel.Props.C11", "IoraModel.Props.C11Json"]
 OBLIGATIONS = [
     {"id": "C11_gen_limits", "theorem": "Iora.C11.gen_limits_ok", "kind": "proved",
      "statement": "Gen obligation: load() re-admits every key, value and record the API admits (totalLen ceiling covers the largest record writeLogEntry can produce)"},
+    {"id": "C11_gen_goodEnd", "theorem": "Iora.C11.gen_goodEnd_ok", "kind": "proved",
+     "statement": "Gen obligation (shape of load): goodEnd is the stream position right after every completely read record body, the only write to goodEnd in the loop, before any `continue`"},
+    {"id": "C11_truncate", "theorem": "Iora.C11.load_truncates_only_torn_tail", "kind": "proved",
+     "statement": "for ARBITRARY log bytes: after a successful load the log is exactly the longest prefix of complete frames of the log found (goodEnd counts skipped records too: CRC mismatch, unknown op, orphan 'X', ...), and the cut-off part does not start with a complete frame"},
+    {"id": "C11_truncate_frames", "theorem": "Iora.C11.goodEnd_after_frames", "kind": "proved",
+     "statement": "complete frames of admissible length, whatever they contain, followed by a strict prefix of one more frame: the cut is exactly at the end of the last complete frame"},
     {"id": "C11_D1", "theorem": "Iora.C11.D1_roundtrip", "kind": "proved",
      "statement": "replay(encode rs) = foldl apply rs for every list of API-written records, any CRC function; goodEnd = file size"},
     {"id": "C11_D1_snapshot", "theorem": "Iora.C11.D1_snapshot", "kind": "proved",
@@ -162,7 +168,9 @@ def enumerate_images(c, impl, rng, every_byte, max_images):
         cur = fs.copy()
         points = []          # (files, where)
         for e, ev in enumerate(evs):
-            points.append((cur.hexes(), "op %d before event %d" % (i, e)))
+            # "renamed" = between the snapshot rename and the log reset of a compaction: new snapshot + old log
+            renamed = e > 0 and evs[e - 1] == "R:tmp:snap"
+            points.append((cur.hexes(), "op %d before event %d%s" % (i, e, " (snapshot renamed, log not yet reset)" if renamed else "")))
             for cpos in cuts_for(ev, rng, every_byte):
                 f2 = cur.copy()
                 f2.apply_event(ev, cut=cpos)
@@ -175,14 +183,14 @@ def enumerate_images(c, impl, rng, every_byte, max_images):
                 continue
             seen.add(key)
             imgs.append({"files": files, "now": new.now if t[0] == "now" else old.now, "old": old, "new": new, "op_index": i, "where": where,
-                         "cfg": cfg, "op": op})
+                         "cfg": cfg, "op": op, "window": "snapshot renamed" in where})
     # the directory after the last op: everything has completed
     if ref is not None:
         imgs.append({"files": fs.hexes(), "now": ref.now, "old": ref.copy(), "new": ref.copy(), "op_index": len(c["ops"]), "where": "after the last op",
                      "cfg": cfg, "op": "-"})
     if len(imgs) > max_images:
         rng.shuffle(imgs)
-        imgs = imgs[:max_images]
+        imgs = [x for x in imgs if x.get("window")] + [x for x in imgs if not x.get("window")][:max_images]   # the rename/reset windows are never dropped
     return imgs
 
 
@@ -299,6 +307,36 @@ def run(ctx: Ctx):
                       "distinct = distinct (image bytes, time) / op lists; non-trivial = image with at least one key recoverable")
 
 
+def gen_orphan_template(r):
+    """History shape: a key lives in the snapshot, gets an expiry-change record ('X') in the log, goes away, then a compaction. In the crash
+    window of that compaction (new snapshot renamed, old log not yet reset) the 'X' record is an orphan: complete, CRC-valid, skipped by replay."""
+    keys = K.gen_universe(r)[:5]
+    k = r.choice(keys)
+    now = r.choice([1000, 1700000000000])
+    inline = r.chance(1, 4)
+    cfg = {"maxCache": r.choice([0, 1, 2, 1000]), "maxLog": 10 ** 7, "inline": 1, "now": now}
+    ops = ["reset %d %d 1 %d" % (cfg["maxCache"], cfg["maxLog"], now)]
+    for x in keys[:r.range(0, 2)]:
+        ops.append("set %s %s" % (hexs(x), hexs(K.gen_value(r))))
+    v = r.below(4)
+    if v == 1:
+        ops += ["setttl %s %s 3600" % (hexs(k), hexs(K.gen_value(r))), "compact", "persist %s" % hexs(k)]
+    else:
+        ops += ["set %s %s" % (hexs(k), hexs(K.gen_value(r))), "compact", "expireat %s %d" % (hexs(k), now + r.choice([5000, 3600000]))]
+    if r.chance(1, 3):
+        ops.append("expireat %s %d" % (hexs(k), now + 7200000))                         # a second 'X'
+    if v == 2:
+        ops += ["now %d" % (now + 7300000), "evict %s cur" % hexs(k)]                   # expired, evicted: 'D' from the eviction callback
+    elif v == 3:
+        ops.append("rmprefix %s" % hexs(k))
+    else:
+        ops.append("remove %s" % hexs(k))
+    for _ in range(r.range(1, 3)):
+        ops.append("set %s %s" % (hexs(r.choice(keys)), hexs(K.gen_value(r))))
+    ops += ["compact", "set %s %s" % (hexs(r.choice(keys)), hexs(K.gen_value(r))), "state"]
+    return {"cat": "history", "ops": ops, "cfg": cfg, "keys": [hexs(x) for x in keys], "template": "orphan-X"}
+
+
 def run_kv(ctx, hb, env, rng, quick, stats, where_dist):
     n_hist = 60 if quick else 400
     max_images = 120 if quick else 300
@@ -313,6 +351,8 @@ def run_kv(ctx, hb, env, rng, quick, stats, where_dist):
                "now": r.choice([1000, 1700000000000])}
         ops, meta = K.gen_history(r, r.range(3, 12), cfg, allow_big=(i % 25 == 3), read_every=False)
         hist.append({"cat": "history", "ops": ops, "cfg": cfg, "keys": [hexs(k) for k in meta["keys"]]})
+    for i in range(10 if quick else 120):
+        hist.append(gen_orphan_template(rng.fork("orphan%d" % i)))
     res = ctx.lockstep("kv", hb, hist, impl_env=env, timeout=1500)
     image_cases = []
     for c, impl, model in res:
@@ -350,7 +390,7 @@ def run_kv(ctx, hb, env, rng, quick, stats, where_dist):
             now = min(img["now"] + later, K.MAXMS - 1)        # the clock cannot pass the last representable instant
             ops = ["crashimg %d %d %d %d %s %s %s" % (cfg[0], cfg[1], cfg[2], now, img["files"][0], img["files"][1], img["files"][2]), "state"]
             cont = None
-            if r.chance(1, 3) or img["files"][2] != "none":
+            if r.chance(1, 3) or img["files"][2] != "none" or img.get("window"):
                 cont = True
             image_cases.append({"cat": "image", "ops": ops, "img": img, "now": now, "cont": cont, "keys": keys,
                                 "cfgd": {"maxCache": cfg[0], "maxLog": cfg[1], "inline": cfg[2], "now": now}, "history": c["ops"]})
@@ -402,7 +442,11 @@ def run_kv(ctx, hb, env, rng, quick, stats, where_dist):
             if ic["img"]["files"][2] != "none":
                 # a leftover (possibly torn) temp file: the next compaction must start its snapshot from scratch
                 more = ["compact"] + more
-            ic["ops"] = ic["ops"] + more + ["reopen", "read - %s" % " ".join(hexs(k) for k in ic["keys"] if len(k) <= 64), "state"]
+            if ic["img"].get("window") or r.chance(1, 4):
+                # at least one acknowledged write between the recovery and the next load (what D4 is about), on a key of the universe with a fresh value
+                more = ["set %s %s" % (hexs(r.choice(ic["keys"])), hexs(b"\xd4" + r.bytes(3)))] + more
+            rd = "read - %s" % " ".join(hexs(k) for k in ic["keys"] if len(k) <= 64)
+            ic["ops"] = ic["ops"] + more + ["reopen", rd, "reopen", rd, "state"]
     # ---- pass 2: every image reopened by the real store and by the model's load
     res2 = ctx.lockstep("kv", hb, image_cases + [{"cat": "stats", "ops": ["stats"]}], impl_env=env, timeout=6000)
     for c, impl, model in res2:
@@ -549,11 +593,76 @@ def gen_malformed(rng, n):
     return cases
 
 
+def gen_clean_skip(rng, n):
+    """Logs made ONLY of complete, CRC-valid frames, some of which the replay skips for a semantic reason (orphan 'X', unknown op letter,
+    zero/oversize inner lengths, implausible expiry): nothing is torn, so load() must not truncate, and a write acknowledged after the
+    recovery must still be there after the next load (D4 on a directory with skipped records)."""
+    cases = []
+    keys = [b"k", b"ab", b"\x00\xff", b"key-3", b"gone"]
+    for i in range(n):
+        now = rng.choice([1000, 5000, 1700000000000])
+        recs = []
+        nskip = 0
+        for _ in range(rng.range(1, 6)):
+            k = rng.choice(keys)
+            v = rng.bytes(rng.range(0, 6))
+            e = rng.choice([now + 100000, now + 5, 1, 0, -1, K.SENTINEL, 9223372036854, 10413792000001])
+            kl, vl, e8 = len(k).to_bytes(4, "little"), len(v).to_bytes(4, "little"), (e % (1 << 64)).to_bytes(8, "little")
+            kind = rng.below(12)
+            if kind < 3:
+                body = b"S" + kl + k + vl + v
+            elif kind == 3:
+                body = b"E" + kl + k + e8 + vl + v
+            elif kind < 7:
+                body = b"X" + kl + rng.choice([k, b"orphan", b"gone"]) [:len(k)].ljust(len(k), b"o") + e8      # mostly orphan expiry changes
+                nskip += 1
+            elif kind == 7:
+                body = b"D" + kl + k
+            elif kind == 8:
+                body = rng.choice([b"Q", b"s", b"\x00"]) + kl + k + vl + v
+                nskip += 1
+            elif kind == 9:
+                body = b"S" + (0).to_bytes(4, "little") + vl + v + b"pad"
+                nskip += 1
+            elif kind == 10:
+                body = b"S" + kl + k + (len(v) + rng.range(1, 9)).to_bytes(4, "little") + v
+                nskip += 1
+            else:
+                body = b"E" + kl + k + (0).to_bytes(8, "little") + vl + v                                     # implausible expiry
+                nskip += 1
+            recs.append(crc_rec(body))
+        ents = [(rng.choice(keys[:4]), rng.bytes(rng.range(0, 4)), rng.choice([None, now + 50000])) for _ in range(rng.range(0, 3))]
+        snap = hexs(snap_bytes(ents)) if rng.chance(1, 2) else "none"
+        x = b"x-new"
+        cases.append({"cat": "clean-skip", "nskip": nskip, "loglen": len(b"".join(recs)),
+                      "ops": ["crashimg 2 10000000 1 %d %s %s none" % (now, snap, hexs(b"".join(recs))), "state",
+                              "set %s 01" % hexs(x), "reopen", "read - %s" % hexs(x), "reopen", "read - %s" % hexs(x)]})
+    return cases
+
+
 def run_malformed(ctx, hb, env, rng, quick, stats):
-    cases = gen_malformed(rng, 400 if quick else 8000)
+    cases = gen_malformed(rng, 400 if quick else 8000) + gen_clean_skip(rng.fork("skip"), 150 if quick else 3000)
     res = ctx.lockstep("kv", hb, cases, impl_env=env, timeout=3000)
     nontriv = 0
     for c, impl, model in res:
+        if c["cat"] == "clean-skip":
+            stats["clean_skip_images"] = stats.get("clean_skip_images", 0) + 1
+            ctx.count_case(c["ops"][0], nontrivial=c["nskip"] > 0)
+            bad = None
+            if not impl[0].startswith("ok"):
+                bad = "D3: a log of complete CRC-valid records does not load: %s" % impl[0][:80]
+            elif "T:log" in impl[0]:
+                bad = ("D4(skipped records): load() truncates a log that consists of complete records only (%d bytes, %d of the records are skipped by the replay: orphan 'X' / unknown op / bad inner "
+                       "length): `%s` (the model: `%s`)" % (c["loglen"], c["nskip"], impl[0][:60], model[0][:60]))
+            else:
+                for j in (4, 6):
+                    if not (impl[j].startswith("size=") and " ex=1 " in impl[j] and "782d6e6577:01" in impl[j]):
+                        bad = ("D4(skipped records): a write acknowledged after recovering from a directory whose log holds complete-but-skipped records is not there after %s: `%s`"
+                               % ("the next clean close + reopen" if j == 4 else "the second reopen", K.short(impl[j], 120)))
+                        break
+            if bad:
+                ctx.violation("property", bad, {"ops": c["ops"], "observed": impl, "expected_by_model": model}, found_input=True)
+                continue
         stats["malformed_images"] = stats.get("malformed_images", 0) + 1
         ctx.count_case(c["ops"][0], nontrivial=impl[0].startswith("ok") and impl[1] != "kv=- exp=-")
         if any(l.startswith("crash:") or l.startswith("throw") for l in impl):
